@@ -25,18 +25,32 @@ open BS.Depth
 
 /-- `BeautifulSoup(markup, "html.parser")`: for every tokenizer event sequence (balanced or not), every choice of
     whitespace-preserving and string-container names and **whatever a structural recursion in `popTag`'s `==` would
-    cost** (`deep`), the accounting of the parse is at most 14: `preserve_whitespace_tag_stack` and
+    cost** (`deep`), provided `pushTag` pushes every whitespace-preserving tag (as it does), the accounting of the
+    parse is at most 14: `preserve_whitespace_tag_stack` and
     `string_container_stack` are always the tag stack filtered by name (`Inv`), so the popped tag is either the very
     object on top of a side stack or has a different name — `Tag.__eq__` returns from one of its first two exits. -/
-theorem depth_bounded_parse (nm : Names) (deep : Nat) (evs : List Ev) : parseDepth nm deep evs ≤ 14 := by
-  have := feedDepth_le nm deep evs
+theorem depth_bounded_parse (nm : Names) (h0 : nm.outermostOnly = false) (deep : Nat) (evs : List Ev) :
+    parseDepth nm deep evs ≤ 14 := by
+  have := feedDepth_le nm h0 deep evs
   simp only [parseDepth, call]; omega
 
 /-- nested `<pre>` inside `<pre>` with text after each: both side-stack comparisons are exercised -/
-def preNames : Names := ⟨fun n => n == 6, fun n => n == 7⟩
+def preNames : Names := { isPre := fun n => n == 6, isSc := fun n => n == 7 }
 example : parseDepth preNames 1000000 [.open 6 false, .open 6 false, .open 1 false, .close 1, .text, .close 6, .text, .close 6] = 14 := by
   decide
-example : parseDepth preNames 1000000 [.open 6 false, .open 7 false, .open 3 true, .close 6] ≤ 14 := depth_bounded_parse _ _ _
+example : parseDepth preNames 1000000 [.open 6 false, .open 7 false, .open 3 true, .close 6] ≤ 14 := depth_bounded_parse _ rfl _ _
+
+/-- The bound DEPENDS on `pushTag` pushing every whitespace-preserving tag: with the (tree-preserving) policy "only
+    the outermost one is pushed", an inner `<pre>` is popped while the outer `<pre>` is on top of the side stack — two
+    different objects with the same name — and `popTag`'s `==` goes into its structural branch: the accounting is
+    then at least whatever that recursion costs. (The harness checks the invariant `Inv` on the running parser, and
+    measures nested whitespace-preserving / string-container tags around deep look-alike content.) -/
+theorem parse_unbounded_if_only_outermost_pushed (deep : Nat) :
+    deep ≤ parseDepth { isPre := fun n => n == 6, isSc := fun _ => false, outermostOnly := true } deep
+      [.open 6 false, .open 6 false, .close 6] := by
+  simp [parseDepth, feedDepth, run, step, pushTag, popToTag, popTo, popTag, popEqCost, popEqPops, popAll, initState,
+    endDataDepth, loop0, loopMax, call, cTokenizer, cTagInit]
+  omega
 
 /-! ## 2. rendering -/
 
@@ -87,13 +101,13 @@ example : copyDepth repaired true (atTop (chainWithTrailingText 2)) = 17 := by d
 /-- `pickle.dumps(soup)` / `pickle.loads`: `__getstate__` renders, the state dict holds no link into the tree
     (`dropLinks`) whether or not the root had been linked into the element chain, `__setstate__` re-parses: at most 15. -/
 theorem depth_bounded_pickle (cfg : Cfg) (h1 : cfg.neIdentity = true) (h2 : cfg.isXmlLoop = true) (h3 : cfg.dropLinks = true)
-    (nm : Names) (deep : Nat) (rootLinked : Bool) (l : Loc) : pickleDepth cfg nm deep rootLinked l ≤ 15 := by
+    (nm : Names) (h0 : nm.outermostOnly = false) (deep : Nat) (rootLinked : Bool) (l : Loc) : pickleDepth cfg nm deep rootLinked l ≤ 15 := by
   have ha := (depth_bounded_render cfg h1 h2 l).2.2.2.2.2.2
-  have hb := feedDepth_le nm deep (toEventsL (kidsOf l.node))
+  have hb := feedDepth_le nm h0 deep (toEventsL (kidsOf l.node))
   simp only [pickleDepth, picklerWalk, h3, Bool.not_true, Bool.and_false, Bool.false_eq_true, ↓reduceIte, call]
   omega
 
-example : pickleDepth repaired preNames 1000 true (atTop (chainWithTrailingText 3)) ≤ 15 := depth_bounded_pickle _ rfl rfl rfl _ _ _ _
+example : pickleDepth repaired preNames 1000 true (atTop (chainWithTrailingText 3)) ≤ 15 := depth_bounded_pickle _ rfl rfl rfl _ rfl _ _ _
 
 /-! ## 5. text extraction and `.string` -/
 
